@@ -1,6 +1,12 @@
 //! Runtime-monitoring harness for minidump-writer (see /verif/DESIGN.md).
 pub mod dest;
+pub mod dump;
+pub mod elf;
+pub mod image;
 pub mod props;
 pub mod report;
 pub mod rng;
+pub mod spec;
+pub mod target;
+pub mod tspec;
 pub mod util;
